@@ -105,10 +105,8 @@ struct Snap {
     img: Vec<u8>,
 }
 
-fn snap(pid: i32, rw: u64) -> Snap {
-    let img = probe::read_mem(pid, rw, (2 * PAGE) as usize)
-        .unwrap_or_else(|| tool_error("cannot read the arena through /proc/<pid>/mem"));
-    Snap { rw, img }
+fn snap(pid: i32, rw: u64) -> Option<Snap> {
+    probe::read_mem(pid, rw, (2 * PAGE) as usize).map(|img| Snap { rw, img })
 }
 
 /// Bytes of the 2-page arena that differ between two snapshots, outside [lo, hi) (real addresses).
@@ -299,7 +297,9 @@ fn do_mem_op(be: &mut MemBackend, op: &str, addr: u64, n: usize, data: &[u8]) ->
     }
 }
 
-fn run_mem_scripts(be: &mut MemBackend, pid: i32, rw: u64, scripts: &[Value], out: &mut NdjsonOut) {
+/// Returns false when the debuggee was lost (a panic of the code under test took the session down):
+/// the last record says so and the mode ends.
+fn run_mem_scripts(be: &mut MemBackend, pid: i32, rw: u64, scripts: &[Value], out: &mut NdjsonOut) -> bool {
     for sc in scripts {
         let ops = sc["ops"].as_array().cloned().unwrap_or_default();
         for pl in ["S", "E", "M"] {
@@ -322,9 +322,16 @@ fn run_mem_scripts(be: &mut MemBackend, pid: i32, rw: u64, scripts: &[Value], ou
                 let n = o["n"].as_i64().unwrap();
                 let data = bytes_of(&o["data"]);
                 let addr = (base as i64 + a) as u64;
-                let before = snap(pid, rw);
+                let before = snap(pid, rw).unwrap_or_else(|| tool_error("cannot read the arena through /proc/<pid>/mem"));
                 let (ok, err, bytes) = do_mem_op(be, o["op"].as_str().unwrap(), addr, n as usize, &data);
-                let after = snap(pid, rw);
+                let Some(after) = snap(pid, rw) else {
+                    // the debuggee is gone: only a crash of the code under test does that
+                    out.emit(&json!({"id": sc["id"], "i": i, "placement": pl, "op": o["op"], "a": a, "n": n,
+                        "addr": format!("0x{addr:x}"), "real_ok": Value::Null, "real_err": format!("debuggee lost: {err}"),
+                        "real_bytes": bytes, "win_before": window(&before, base, len), "win_after": Value::Null,
+                        "outside_changed": [], "lost": true}));
+                    return false;
+                };
                 let lo = addr.max(rw);
                 let hi = ((addr as i64 + n) as u64).min(rw + 2 * PAGE).max(lo);
                 out.emit(&json!({"id": sc["id"], "i": i, "placement": pl, "op": o["op"], "a": a, "n": n,
@@ -338,6 +345,7 @@ fn run_mem_scripts(be: &mut MemBackend, pid: i32, rw: u64, scripts: &[Value], ou
             }
         }
     }
+    true
 }
 
 fn sym_addr(elf: &Elf, pid: i32, name: &str) -> u64 {
@@ -359,8 +367,8 @@ fn mode_mem_api(cfg: &Value, out: &mut NdjsonOut) {
     }
     out.emit(&json!({"meta": "arena", "rw": format!("0x{rw:x}"), "pid": pid}));
     let scripts = read_ndjson(cfg["scripts"].as_str().unwrap());
-    run_mem_scripts(&mut MemBackend::Api(&dbg), pid, rw, &scripts, out);
-    out.emit(&json!({"meta": "done", "holes_ok": holes_ok(pid, rw)}));
+    let alive = run_mem_scripts(&mut MemBackend::Api(&dbg), pid, rw, &scripts, out);
+    out.emit(&json!({"meta": "done", "lost": !alive, "holes_ok": holes_ok(pid, rw)}));
     std::mem::forget(dbg);
     unsafe { libc::kill(pid, libc::SIGKILL) };
 }
@@ -376,8 +384,12 @@ fn mode_mem_dap(cfg: &Value, out: &mut NdjsonOut) {
     }
     out.emit(&json!({"meta": "arena", "rw": format!("0x{rw:x}"), "pid": pid}));
     let scripts = read_ndjson(cfg["scripts"].as_str().unwrap());
-    run_mem_scripts(&mut MemBackend::Dap(&mut dap), pid, rw, &scripts, out);
-    out.emit(&json!({"meta": "done", "holes_ok": holes_ok(pid, rw)}));
+    let alive = run_mem_scripts(&mut MemBackend::Dap(&mut dap), pid, rw, &scripts, out);
+    out.emit(&json!({"meta": "done", "lost": !alive, "holes_ok": holes_ok(pid, rw)}));
+    if !alive {
+        unsafe { libc::kill(pid, libc::SIGKILL) };
+        return;
+    }
     dap.finish(pid);
 }
 
@@ -454,6 +466,7 @@ fn mode_vars_dap(cfg: &Value, out: &mut NdjsonOut) {
     out.emit(&json!({"meta": "members", "variables": members["body"]["variables"], "frame": top["name"]}));
 
     let whole = |pid: i32| probe::read_mem(pid, pack - MARGIN, (len as u64 + 2 * MARGIN) as usize).unwrap_or_default();
+    let full = (len as u64 + 2 * MARGIN) as usize;
     for sc in &scripts {
         let ops = sc["ops"].as_array().cloned().unwrap_or_default();
         if ops.is_empty() {
@@ -479,6 +492,15 @@ fn mode_vars_dap(cfg: &Value, out: &mut NdjsonOut) {
                     dap.req("setExpression", json!({"expression": format!("pack.{name}"), "value": lit, "frameId": frame_id}))
                 };
                 let after = whole(pid);
+                if before.len() != full || after.len() != full {
+                    out.emit(&json!({"id": sc["id"], "i": i, "via": via, "op": "WV", "a": a, "n": n, "member": name, "type": ty,
+                        "literal": lit, "real_ok": Value::Null, "real_err": format!("debuggee lost: {:?}", r.as_ref().err()),
+                        "reply": Value::Null, "readback": Value::Null, "win_before": bytes_of(&o["before"]), "win_after": Value::Null,
+                        "outside_changed": [], "lost": true}));
+                    out.emit(&json!({"meta": "done", "lost": true}));
+                    unsafe { libc::kill(pid, libc::SIGKILL) };
+                    return;
+                }
                 let (ok, err, reply) = match &r {
                     Ok(r) if r["success"] == true => (Some(true), String::new(), r["body"]["value"].clone()),
                     Ok(r) => (Some(false), r["message"].as_str().unwrap_or("").to_string(), Value::Null),
